@@ -1,5 +1,6 @@
 \* repaired design (own proposal logged), validator 2 is proposer of (1,0); rounds 0, one height,
 \* one valid peer value, votes from peers 1 and 3; every crash point, up to 2 crashes
+\* Measured (with graceful stops): 472,409 distinct states.
 CONSTANTS
   NV = 4
   PowerOf <- DrvPowerOf
